@@ -41,7 +41,7 @@ from radicale.log import logger
 INTERNAL_TYPES: Sequence[str] = ("multifilesystem", "multifilesystem_nolock",)
 
 # NOTE: change only if cache structure is modified to avoid cache invalidation on update
-CACHE_VERSION_RADICALE = "3.3.1"
+CACHE_VERSION_RADICALE = "3.5.1"
 
 CACHE_VERSION: bytes = ("%s=%s;%s=%s;" % ("radicale", CACHE_VERSION_RADICALE, "vobject", utils.package_version("vobject"))).encode()
 
